@@ -128,6 +128,14 @@ CHECKS = {
               "call/N, dynamic fact under a reserved name); probe of the globals and __builtins__ visible to loaded code."),
         technique="explicit TLA+ shape relation evaluated by TLC on recorded compiler output; reserved-name behaviours of the TLA+ machine replayed",
         ref="5/C12"),
+    "C02": dict(
+        text=("spec/UnifyGen.tla is an implementation-shaped model of engine.unify (binding cells with stale values, generator objects with program counters, try/finally, "
+              "unify_arrays holding sub-generators open); TLC checks on it YieldIffUnifiable, AtYieldBothSidesEqual, AtYieldIsMGU (against the reference Terms!MGU), "
+              "AtMostOneYield, AllUnboundAfterEnd, GetValueIsResolve and RefSymmetric/RefIsUnifier for all ordered pairs of ~100 terms of depth <= 1 (atoms, int, f/1, f/2, g/1, "
+              "lists, three variables) x 7 (thorough 21) stacks of earlier still-active unifications; each of the ~66k start states is replayed on the real unify with real "
+              "objects, the stack held open as real suspended generators, three ways (exhaust, close, drop)."),
+        technique="implementation-shaped TLA+ model of the unify generators model-checked against a reference mgu; all start states replayed on the real unify",
+        ref="5/C02"),
 }
 
 PENDING = {}
